@@ -50,6 +50,7 @@ def c03(ctx, v):
     T.r_tables(ctx, v, want=("R-GROW",))
     T.r_repair(ctx, v)
     r_absent(ctx, v)
+    M.r_once(ctx, v)  # the pop_*_if family removes exactly the element its predicate saw
     D.r_keymut(ctx, v, only=("k3",))
     M.r_strat(ctx, v)
 
@@ -95,6 +96,13 @@ def c05(ctx, v):
 def c06(ctx, v):
     M.r_side(ctx, v)
     I.r_esi(ctx, v, only_types=lambda T_: T_.endswith("IntoSortedIter"), key_floor=1)
+    # sorted consumption is pop after pop: the heap-order rules of C01/C02 are necessary conditions of C06
+    for Q in (PQ, DPQ):
+        O.r_restore(ctx, v, Q)
+        O.r_upboth(ctx, v, Q)
+        O.r_extreme(ctx, v, Q, only=("pop", "pop_min", "pop_max"))
+        if S:
+            S.r_sift(ctx, v, Q)
 
 
 def c07(ctx, v):
